@@ -187,8 +187,15 @@ def handle : Handler := fun st op j =>
     let av ← getNat j "a"
     let kv ← getOptInt j "k"
     let rp : RangeProof := { cs := List.replicate n (some 1), ds := [], vs := [], v5 := none, ld := 0, sign := sgn, a := av, k := kv }
+    -- what is reported must follow from the established fact sign*(A*m - K) >= 0 on the box
+    let holds (sg : Int) (f : Int) (b : Int) (m : Int) : Bool :=
+      if sg == 1 then decide (f * m - b ≥ 0) else decide (f * m - b ≤ 0)
     pure (st, match rp.provenStatement with
-      | some (sgn, f, b) => s!"{sgn} {f} {hexOfInt b}"
+      | some (sg, f, b) =>
+        let sound := if sgn == 1 || sgn == -1 then
+            (List.range 97).all fun m => !(holds sgn (av : Int) (kv.getD 0) (m : Int)) || holds sg (f : Int) b (m : Int)
+          else true
+        s!"{if sound then "sound" else "unsound"} {sg} {f} {hexOfInt b}"
       | none => "panic")
   | "rp-complete" => some do
     -- can the honest prover build the proof?  (CommitmentsFromSecrets preconditions)
